@@ -450,6 +450,18 @@ static void wl_quantsmall(Rng& r, long count) {
     Ctc* q = ex ? (Ctc*)new CtcExist(*c, vars, y, prec) : (Ctc*)new CtcForAll(*c, vars, y, prec);
     g.keep(q);
     run_ctc(g, n, q, tree);
+    // the parameter domain `y_init` is a public member that "can be set dynamically": the SAME object is used with a wide
+    // domain (several leaves of the bisection tree: a call that empties the box leaves the traversal early), then with
+    // another domain, disjoint from the first one, and so on
+    if (r.coin(40)) {
+      CtcQuantif* cq = ex ? (CtcQuantif*)(CtcExist*)q : (CtcQuantif*)(CtcForAll*)q;
+      for (int rep = 0; rep < 4; rep++) {
+        double b = g.coord(); IntervalVector y2(1, rep % 2 == 0 ? Interval(b, b + r.range(2, 8) / 2.0) : Interval(b, b + (r.coin() ? 0.0 : 0.5)));
+        cq->y_init = y2;
+        string tree2 = string(ex ? "exist[" : "forall[") + mask + "/" + tok(y2) + "/" + hex(prec) + "/" + hex(Bsc::default_ratio()) + "](" + sub + ")";
+        run_ctc(g, n, q, tree2);
+      }
+    }
   }
 }
 
